@@ -131,7 +131,18 @@ fn eff1(f: &[&str]) -> String {
         bits(Effects::default()),
         e.contains(e) as u8,
         if it.is_empty() { "-".to_owned() } else { it.join(",") },
-        hex(format!("{e:?}").as_bytes())
+        {
+            // the debug form names exactly the members whatever width / precision the caller gives
+            let plain = format!("{e:?}");
+            let flagged = [format!("{e:14?}"), format!("{e:.3?}"), format!("{e:<9.0?}"), format!("{e:*^30.2?}")];
+            let mut h = hex(plain.as_bytes());
+            for (i, x) in flagged.iter().enumerate() {
+                if *x != plain {
+                    h.push_str(&format!("!flags{}:{}", i, hex(x.as_bytes())));
+                }
+            }
+            h
+        }
     )
 }
 
